@@ -115,13 +115,16 @@ type world struct {
 	nextRid     int
 	installed   map[int]int // rid -> stamp of the return of the call that installed it
 	// model pieces that are exact because one driver owns them
-	ctxTag   int // tag of the container's current context (0 = none), owned by driver 0
-	ctxs     map[int]context.Context
-	cancels  map[int]context.CancelFunc
-	hasFn    bool // routine (or state routine) present, owned by driver 1
-	curState int
-	cmpNil   bool
-	coarse   bool // the compare function identifies states n and n+10
+	ctxTag    int // tag of the container's current context (0 = none), owned by driver 0
+	ctxs      map[int]context.Context
+	cancels   map[int]context.CancelFunc
+	hasFn     bool // routine (or state routine) present, owned by driver 1
+	curState  int
+	cmpNil    bool
+	cfgKind   int   // backoff from a configuration: 1 constant 150ms, 2 exponential 100/x2/max 200 (0: none or recording backoff)
+	cfgStreak int   // failed exits of the current instance since the last success
+	cfgLast   int64 // interval that applies to the latest failed exit
+	coarse    bool  // the compare function identifies states n and n+10
 	// C14 machine
 	single     bool
 	needReset  bool
@@ -185,6 +188,8 @@ func (w *world) instance(rid int, ctx context.Context, st int) (err error) {
 				c.Fail("C14.M2.rerun-after-error", "instance %d entered although instance %d had returned an error, retry is not configured and no restarting call followed", in.n, w.lastFail.n)
 			} else if w.bo != nil && c.S.Now() < w.lastFail.exitAt+int64(w.bo.last) {
 				c.Fail("C14.M3.retry-too-early", "instance %d entered at t=%dms, before the backoff interval %v after the failed exit at t=%dms had passed", in.n, c.S.Now()/1e6, w.bo.last, w.lastFail.exitAt/1e6)
+			} else if w.bo == nil && w.cfgKind != 0 && c.S.Now() < w.lastFail.exitAt+w.cfgLast {
+				c.Fail("C14.M3.retry-too-early", "instance %d entered at t=%dms, before the configured backoff interval of %dms after the failed exit at t=%dms had passed", in.n, c.S.Now()/1e6, w.cfgLast/1e6, w.lastFail.exitAt/1e6)
 			}
 			w.lastFail = nil
 		}
@@ -217,6 +222,15 @@ func (w *world) instance(rid int, ctx context.Context, st int) (err error) {
 		in.liveExit = ctx.Err() == nil
 		if w.single && in.liveExit {
 			w.exits = append(w.exits, in)
+			if w.cfgKind != 0 {
+				// model of the configured backoff: a success resets it, every failed exit of the current instance takes one step
+				if err == nil {
+					w.cfgStreak = 0
+				} else {
+					w.cfgLast = w.cfgInterval(w.cfgStreak)
+					w.cfgStreak++
+				}
+			}
 			if err == nil {
 				w.lastSucc = in
 				w.needReset = w.retry && w.bo != nil
@@ -292,6 +306,21 @@ func (w *world) causeBetween(from, to, maxKind int) bool {
 		}
 	}
 	return false
+}
+
+// cfgInterval: the k-th interval (k = failures since the last success) of the configured backoff.
+func (w *world) cfgInterval(k int) int64 {
+	if w.cfgKind == 2 {
+		d := int64(100 * time.Millisecond)
+		for i := 0; i < k && d < int64(200*time.Millisecond); i++ {
+			d *= 2
+		}
+		if d > int64(200*time.Millisecond) {
+			d = int64(200 * time.Millisecond)
+		}
+		return d
+	}
+	return int64(150 * time.Millisecond)
 }
 
 func (w *world) newRoutine() (int, routine.Routine, routine.StateRoutine[int]) {
@@ -623,7 +652,12 @@ func newWorld(c *core.Ctx, single bool) *world {
 				w.bo.stopAfter = c.IntRange(1, 2)
 			}
 			opts = append(opts, routine.WithBackoff(w.bo))
+		} else if single && c.S.PlanP(500) {
+			// the library's exponential backoff from a configuration: 100, 200, 200, … ms, back to 100 after a success
+			w.cfgKind = 2
+			opts = append(opts, routine.WithRetry(&ubackoff.Backoff{BackoffKind: ubackoff.BackoffKind_BackoffKind_EXPONENTIAL, Exponential: &ubackoff.Exponential{InitialInterval: 100, Multiplier: 2, MaxInterval: 200}}))
 		} else {
+			w.cfgKind = 1
 			opts = append(opts, routine.WithRetry(&ubackoff.Backoff{BackoffKind: ubackoff.BackoffKind_BackoffKind_CONSTANT, Constant: &ubackoff.Constant{Interval: 150}}))
 		}
 	}
